@@ -57,6 +57,8 @@ def run(ctx):  # noqa: C901
     # ---- primal ---------------------------------------------------------------------------------
     pp = m.func("ppt_distinguishability._min_error_primal")
     sk = Skeleton(m, pp)
+    from ..sdp import r_hermitian_vars
+    r_hermitian_vars(ctx, pp, sk)
     if sk.probs:
         p = sk.probs[0]
         ctx.ob("R-SDP", pp, "objective sense == max", p.sense == "max", p.sense or "?", p.node)
@@ -91,6 +93,7 @@ def run(ctx):  # noqa: C901
     # ---- dual -------------------------------------------------------------------------------------
     dd = m.func("ppt_distinguishability._min_error_dual")
     sd = Skeleton(m, dd)
+    r_hermitian_vars(ctx, dd, sd)
     if sd.probs:
         p = sd.probs[0]
         ctx.ob("R-SDP", dd, "objective sense == min", p.sense == "min", p.sense or "?", p.node)
@@ -141,6 +144,7 @@ def run(ctx):  # noqa: C901
     og = origins(sh)
     Ns = Normalizer(m, sh, inline=False)
     sk = Skeleton(m, sh)
+    r_hermitian_vars(ctx, sh, sk)
     for nm, what in (("dim_list", "dimension list [X, Y*level]"), ("sys_list", "traced extension copies"), ("sym", "symmetric projector")):
         dep = "level" in og.deps.get(nm, set())
         ctx.ob("R-THREAD", sh, f"level->{nm}", dep, f"{what} depends on level" if dep else f"`{nm}` does not depend on `level`: the constraint set is level independent")
